@@ -294,6 +294,28 @@ func materialisedFiles() []struct {
 		trak := mTrak(1, 1000, 1, true, nil, append(stbl(7), mStco([]int64{int64(len(ftyp) + hdr)}))...)
 		out = append(out, nd{fmt.Sprintf("matter:mdat-first(large=%v)", large), cat(ftyp, mMdat(mkPayload(7), large), mkBox("moov", mMvhd(1000, 1, 2), trak), mkBox("free", zeros(3)))})
 	}
+	// fragments whose trun carries NO data offset (8.8.8: the data then starts at the tfhd base data offset, or at the
+	// moof start with default-base-is-moof, or follows the previous track fragment's data): an encoder that "fixes up"
+	// trun offsets must not grow such a trun
+	{
+		ini := mFragInit([]int64{1}, 1000)
+		smp := []mSample{{10, 4, 0x02000000, 0}, {10, 5, 0x01010000, 2}}
+		for _, form := range []string{"base-data-offset", "default-base-is-moof", "neither"} {
+			build := func(base int64) []byte {
+				tfhd := mTfhd(0, 1, 0, 0, 0, 0, 0)
+				switch form {
+				case "base-data-offset":
+					tfhd = mTfhd(0x1, 1, base, 0, 0, 0, 0)
+				case "default-base-is-moof":
+					tfhd = mTfhd(0x20000, 1, 0, 0, 0, 0, 0)
+				}
+				return mkBox("moof", mMfhd(1), mkBox("traf", tfhd, mTfdt(1, 0), mTrun(1, 0xf00, 0, 0, smp)))
+			}
+			moof := build(int64(len(ini) + len(build(0)) + 8))
+			out = append(out, nd{"matter:frag-trun-without-data-offset(" + form + ")", cat(ini, moof, mMdat(mkPayload(9), false))})
+			out = append(out, nd{"matter:segment-trun-without-data-offset(" + form + ")", cat(mStyp("msdh", 0, "msdh"), build(int64(24+len(build(0))+8)), mMdat(mkPayload(9), false))})
+		}
+	}
 	out = append(out, encryptedSegments()...)
 	out = append(out, mixedProtectionFiles()...)
 	return out
